@@ -1487,3 +1487,6 @@ PRAGMA USES-ALL-FRAMES
         }
     }
 }
+
+#[cfg(rigetti_quil_rs_verif)]
+pub(crate) use self::gate::verif_lifted_gate_matrix;
